@@ -3,8 +3,8 @@
 # store it under /verif/seeded/<ID>/, then run the property's quick check against it in /repo and restore /repo.
 set -u
 for ID in "$@"; do
-W=/tmp/seed-$ID
-OUT=/verif/seeded/$ID
+W=${SEEDDIR:-/tmp/seed}-$ID
+OUT=/verif/seeded/$ID${SEEDSUFFIX:-}
 mkdir -p $OUT
 echo "=== $ID"
 cd $W || exit 2
